@@ -26,7 +26,7 @@ import (
 //   RULEOUT (db table b TYPE (idx…) ((table slice)…) (slice…) (database…) column)
 //           (db table l TARGETDB TARGETTABLE column)          sorted by (db, table)
 //   PLACE   one per base rule, in the same order: - (type not probed) or a list with one
-//           entry per key: (ok N) | err | panic | skip | in | (out N)   (in/out: murmur)
+//           entry per key: (ok N) | err | panic | in | (out N)   (in/out: murmur)
 
 func init() {
 	core.Register(&core.Property{
@@ -46,7 +46,6 @@ func init() {
 			"sums of locations, database ranges and date ranges stay far below 2^63 (Go int is 64 bits)",
 			"Go's time, strconv, regexp and sort packages behave as modelled (time.Parse validity of yyyy/yyyymm/yyyymmdd, Duration saturation, Atoi)",
 			"the murmur shard is modelled for an arbitrary hash function (its placements are compared as listed/unlisted only)",
-			"mycat_mod placements are not compared for keys of magnitude >= 2^63 (changed by fix 722beea on branch agent-shard)",
 		},
 	})
 }
@@ -208,31 +207,6 @@ func c10ProbedType(t string) bool {
 	return false
 }
 
-// keys whose mycat_mod placement differs between this tree and fix 722beea of
-// branch agent-shard (|key| >= 2^63): not compared.
-func c10MycatModSkip(k c10Key) bool {
-	switch k.kind {
-	case "i":
-		return k.i == math.MinInt64
-	case "u":
-		return k.u >= 1<<63
-	}
-	s := k.s
-	if s != "" && (s[0] == '+' || s[0] == '-') {
-		s = s[1:]
-	}
-	if s == "" {
-		return false
-	}
-	for _, ch := range s {
-		if ch < '0' || ch > '9' {
-			return false
-		}
-	}
-	v, err := strconv.ParseInt(k.s, 10, 64)
-	return err != nil || v == math.MinInt64
-}
-
 func (k c10Key) value() interface{} {
 	switch k.kind {
 	case "i":
@@ -338,10 +312,6 @@ func execC10(in core.Sexp) string {
 		}
 		var ps []string
 		for _, k := range c.keys {
-			if typ == models.ShardMycatMod && c10MycatModSkip(k) {
-				ps = append(ps, "skip")
-				continue
-			}
 			ps = append(ps, c10Place(e.rule, idx, typ == models.ShardMycatMURMUR, k))
 		}
 		places = append(places, "("+strings.Join(ps, " ")+")")
@@ -362,6 +332,9 @@ var c10KeyPool = []c10Key{
 	{kind: "s", s: "12a"}, {kind: "s", s: "hello world"}, {kind: "s", s: "9223372036854775807"}, {kind: "s", s: "9223372036854775808"},
 	{kind: "s", s: "-9223372036854775808"}, {kind: "s", s: "-9223372036854775809"}, {kind: "s", s: "18446744073709551615"}, {kind: "s", s: "18446744073709551616"},
 	{kind: "s", s: "-"}, {kind: "s", s: "+"}, {kind: "s", s: " 5"}, {kind: "s", s: "user_1001"}, {kind: "s", s: "ABCDEFGHIJKLMNOPQRSTUVWXYZ"},
+	// integers beyond 64 bits and near-integers: mycat_mod reads the key with big.Int.SetString(…, 10)
+	{kind: "s", s: "-100000000000000000000000000001"}, {kind: "s", s: "+18446744073709551616"}, {kind: "s", s: "1_0"}, {kind: "s", s: "0x10"},
+	{kind: "s", s: "--1"}, {kind: "s", s: "1e3"},
 }
 
 type c10Gen struct {
